@@ -17,8 +17,9 @@ package types
 //@ func (*TransactionCancelTimer).Stop
 //@   trusted sequential abstraction of the timer goroutine protocol (schedules are property C16, not applicable)
 //@   requires t != nil
-//@   modifies nothing
+//@   modifies t.done
 //@   emits TimerStop(t)
+//@   ensures stopped: t.done == nil
 
 //@ func (*TransactionCancelTimer).Start
 //@   trusted sequential abstraction of the timer goroutine protocol (schedules are property C16, not applicable)
@@ -36,9 +37,8 @@ package types
 //@   requires t != nil
 //@   nosafety the claim is about what the wait listens to; no-panic is property C20
 //@   let n0 = ntrace()
-//@   let done0 = t.done
 //@   ensures waits_for_expiry_or_stop_only [C06 C05]: called(NewTimer) && forall(i, n0, ntrace(), isev(emitted(i), Recv) ==>
-//@            evarg(emitted(i), Recv, 0) == done0 || evarg(emitted(i), Recv, 0) == callres(NewTimer, 0).C)
+//@            evarg(emitted(i), Recv, 0) == done || evarg(emitted(i), Recv, 0) == callres(NewTimer, 0).C)
 //@   ensures the_delay_is_the_configured_one [C06]: callarg(NewTimer, 0, 0) == t.delay
 //@   ensures wakes_up_once [C06 C05]: ntrace() >= n0 + 1 && isev(emitted(n0), Recv) && forall(i, n0 + 1, ntrace(), !isev(emitted(i), Recv))
 //@   ensures a_stop_runs_nothing [C05 C06]: evarg(emitted(n0), Recv, 0) != callres(NewTimer, 0).C ==> ntrace() == n0 + 1
@@ -135,9 +135,11 @@ package types
 //@   props C05
 //@   requires inv_Transaction(t) && t.timer != nil
 //@   let n0 = ntrace()
-//@   modifies nothing
+//@   modifies TransactionCancelTimer.done
 //@   emits TimerStop(t.timer)
 //@   ensures stops_timer: ntrace() == n0 + 1 && emitted(n0) == TimerStop(t.timer)
+//@   ensures the_timer_is_stopped_for_good [C05 C06]: t.timer.done == nil
+//@   ensures other_timers_untouched: allref(p, TransactionCancelTimer, p != t.timer ==> p.done == old(p.done))
 //@   ensures is_rollback: result != nil && fresh(result) && result.isRollback && result.timer == nil &&
 //@            result.transactionManager == t.transactionManager
 //@   ensures resubmits_old_versions: result.newIntents != nil && allstr(k,
@@ -159,8 +161,10 @@ package types
 //@   props C06
 //@   requires t != nil
 //@   let n0 = ntrace()
-//@   modifies nothing
+//@   modifies TransactionCancelTimer.done
 //@   emits TimerStop(t.timer) if t.timer != nil
+//@   ensures the_timer_is_stopped_for_good [C06]: t.timer != nil ==> t.timer.done == nil
+//@   ensures other_timers_untouched: allref(p, TransactionCancelTimer, p != t.timer ==> p.done == old(p.done))
 //@   ensures no_timer: t.timer == nil ==> result != nil && ntrace() == n0
 //@   ensures stops_timer: t.timer != nil ==> result == nil && ntrace() == n0 + 1 && emitted(n0) == TimerStop(t.timer)
 
@@ -213,8 +217,10 @@ package types
 //@   requires inv_TM(t)
 //@   let n0 = ntrace()
 //@   let tr0 = t.transaction
-//@   modifies t.transaction
+//@   modifies t.transaction, TransactionCancelTimer.done
 //@   emits TimerStop(tr0.timer) if tr0 != nil && tr0.transactionId == id
+//@   ensures wrong_id_leaves_the_timer_running [C06]: old(t.transaction) == nil || old(t.transaction).transactionId != id ==>
+//@            allref(p, TransactionCancelTimer, p.done == old(p.done))
 //@   ensures no_transaction: old(t.transaction) == nil ==> result != nil && ntrace() == n0
 //@   ensures wrong_id_no_effect: old(t.transaction) != nil && old(t.transaction).transactionId != id ==>
 //@            result != nil && t.transaction == old(t.transaction) && ntrace() == n0
@@ -225,10 +231,12 @@ package types
 //@   props C06 C05
 //@   requires inv_TM(t)
 //@   let n0 = ntrace()
-//@   modifies t.transaction, trace
+//@   modifies t.transaction, trace, TransactionCancelTimer.done
 //@   ensures no_transaction: old(t.transaction) == nil ==> result != nil && ntrace() == n0
 //@   ensures wrong_id_no_effect: old(t.transaction) != nil && old(t.transaction).transactionId != id ==>
 //@            result != nil && t.transaction == old(t.transaction) && ntrace() == n0
+//@   ensures wrong_id_leaves_the_timer_running [C06]: old(t.transaction) == nil || old(t.transaction).transactionId != id ==>
+//@            allref(p, TransactionCancelTimer, p.done == old(p.done))
 //@   ensures rolls_back_once [C05 C06]: old(t.transaction) != nil && old(t.transaction).transactionId == id ==>
 //@            ntrace() == n0 + 2 && emitted(n0) == TimerStop(old(t.transaction).timer) &&
 //@            exref(rb, Transaction, emitted(n0+1) == Rollback(rb) && fresh(rb) && rb.isRollback && rb.newIntents != nil &&
